@@ -55,6 +55,9 @@ type Bases struct {
 	UUID *kindOf[uuid.UUID]
 	Noth *kindOf[proto.Nothing]
 	Pt   *kindOf[proto.Point]
+	// the inferring enum column (names on the Go side, numbers on the wire)
+	EnT8  *kindOf[string]
+	EnT16 *kindOf[string]
 }
 
 func NewBases() *Bases {
@@ -79,6 +82,8 @@ func NewBases() *Bases {
 		Bool: boolKind(), Str: String(), FS3: FixedString(3),
 		FS16: Fixed[[16]byte]("FixedString(16)", 16, col[[16]byte, *proto.ColFixedStr16]()),
 		UUID: UUID(), Noth: Nothing(), Pt: Point(),
+		EnT8:  EnumText(8, []string{"a", "bee", "", "z z"}, []int{1, 2, -128, 127}),
+		EnT16: EnumText(16, []string{"x", "yy", "neg"}, []int{0, 300, -32768}),
 	}
 }
 
@@ -186,6 +191,8 @@ func Universe(depth int) []Kind {
 	over(&u, b.UUID, depth)
 	over(&u, b.Noth, depth)
 	over(&u, b.Pt, depth)
+	over(&u, b.EnT8, depth)
+	over(&u, b.EnT16, depth)
 	overCmp(&u, b.U8, depth)
 	overCmp(&u, b.U16, depth)
 	overCmp(&u, b.U64, depth)
